@@ -75,7 +75,12 @@ typedef struct of_mod2entry
 #endif
 } of_mod2entry;
 
+#if defined(OPENFEC_VERIF) && defined(OPENFEC_VERIF_SPARSE_BLOCK)
+/* verification hook: small entry blocks make block exhaustion and entry recycling reachable in few steps */
+#define of_mod2sparse_block OPENFEC_VERIF_SPARSE_BLOCK
+#else
 #define of_mod2sparse_block 1024  /* Number of entries to block together for memory allocation */
+#endif
 
 
 /*
